@@ -21,6 +21,7 @@
    (GET /dump/streams) touch none of the three maps and are modelled as a state-preserving
    route. *)
 From Coq Require Export List NArith ZArith String Bool.
+From Hy Require Export gen.ParamsC15.
 Export ListNotations.
 Local Open Scope N_scope.
 
@@ -192,19 +193,19 @@ Definition http_op (secret : string) (r : request) : option op :=
 
 Definition http_step (secret : string) (s : state) (r : request) : state * (N * hbody) :=
   match route secret r with
-  | RtUnauthorized => (s, (401, BError))
-  | RtIndex => (s, (200, BIndex))
+  | RtUnauthorized => (s, (StatusUnauthorized, BError))
+  | RtIndex => (s, (StatusOK, BIndex))
   | RtTraffic =>
       let (s', rp) := do_traffic s (parse_bool (r_clear r)) in
-      (s', (200, match rp with RStats m => BStats m | _ => BError end))
+      (s', (StatusOK, match rp with RStats m => BStats m | _ => BError end))
   | RtKick =>
       match r_body r with
-      | None => (s, (400, BError))
-      | Some ids => (fst (do_kick s ids), (200, BEmpty))
+      | None => (s, (StatusBadRequest, BError))
+      | Some ids => (fst (do_kick s ids), (StatusOK, BEmpty))
       end
-  | RtOnline => (s, (200, BOnline (online s)))
-  | RtDump => (s, (200, BStreams))
-  | RtNotFound => (s, (404, BError))
+  | RtOnline => (s, (StatusOK, BOnline (online s)))
+  | RtDump => (s, (StatusOK, BStreams))
+  | RtNotFound => (s, (StatusNotFound, BError))
   end.
 
 (* ---------- everything a caller can do to the server object ---------- *)
